@@ -106,7 +106,21 @@ Definition sp_check (x : sp_case * sched_obs) : bool :=
 
 (** C01 cases: dense compositions are checked against FV.Sched (the model the theorems are about) AND against this
     generalisation with all periods 1 (they must coincide); sparse ones against the generalisation *)
-Inductive c01_case : Type := CDense (c : sched_case) | CSparse (c : sp_case).
+(** Compositions with PUSH-based components that have outputs (notified through CallbackInputs, re-publishing on a
+    buffered Output with the time of the notification): the driver treats every component without a time step alike - it
+    is always a dependency, and [_update_recursive] walks through it to its sources with the required time.  Which
+    component is updated when, the outcome and the final times are therefore those of the composition in which the
+    push-based component is replaced by a pull-based one ([CPush] carries that composition); only the pull events differ
+    (a push-based component is read from its own buffered output and samples its sources when they publish).  The
+    observation of such a case is the update sequence (the EU events), the outcome and the final times. *)
+Definition is_upd (e : ev) : bool := match e with EU _ _ => true | _ => false end.
+
+Definition push_check (x : sched_case * sched_obs) : bool :=
+  let '(o, evs, tms) := sched_model (fst x) in
+  let '(o', evs', tms') := snd x in
+  outcome_eqb o o' && list_eqb ev_eqb (filter is_upd evs) evs' && list_eqb Z.eqb tms tms'.
+
+Inductive c01_case : Type := CDense (c : sched_case) | CSparse (c : sp_case) | CPush (c : sched_case).
 
 Definition dense_as_sparse (c : sched_case) : sp_case :=
   let '(cs, endt, fuel) := c in (cs, map (fun _ => 1%nat) cs, endt, fuel).
@@ -115,7 +129,12 @@ Definition c01_check (x : c01_case * sched_obs) : bool :=
   match fst x with
   | CDense c => sched_check (c, snd x) && sp_check (dense_as_sparse c, snd x)
   | CSparse c => sp_check (c, snd x)
+  | CPush c => push_check (c, snd x)
   end.
 
 Definition c01_model (c : c01_case) : sched_obs :=
-  match c with CDense c => sched_model c | CSparse c => sp_model c end.
+  match c with
+  | CDense c => sched_model c
+  | CSparse c => sp_model c
+  | CPush c => let '(o, evs, tms) := sched_model c in (o, filter is_upd evs, tms)
+  end.
